@@ -105,6 +105,21 @@ def make_db(profile, id_size, kwlen, g, relation='disjoint', awkward=True):
     """database {keyword: [ids]} with the given list-length profile (dict order = profile order)"""
     kws = make_keywords(len(profile), kwlen, g)
     total = sum(profile)
+    if relation == 'mixed-ids':
+        # identifiers of different lengths in one database (for a scheme without an identifier-size parameter): the lengths
+        # straddle the 16-byte cipher block boundary, so ciphertext entries of one index have different lengths
+        lens = [8, 16, 1, 15, 17, 33, 40, 32]
+        db, c = {}, 0
+        for w, n in zip(kws, profile):
+            db[w] = []
+            for _ in range(n):
+                ln = lens[c % len(lens)]
+                body = (b'%04d' % c)[:ln] if ln < 5 else b'%04d' % c + g.randbytes(ln - 5) + bytes([g.randrange(1, 256)])
+                if ln == 1:
+                    body = bytes([1 + c % 255])
+                db[w].append(body)
+                c += 1
+        return db
     if relation == 'disjoint' and (id_size > 1 or total <= 255):
         ids = make_ids(total, id_size, g, awkward)
         g2 = ids[:]
